@@ -515,10 +515,10 @@ impl Property for C19 {
     }
     fn strategy(&self, tier: Tier) -> BoxedStrategy<Case> {
         let _ = tier;
-        let mat = (1usize..=7, 1usize..=6).prop_flat_map(|(n, m)| aff_of(m, n, num()));
+        let mat = (sized(7, 26), sized(6, 9)).prop_flat_map(|(n, m)| aff_of(m, n, num()));
         let func = (mat.clone(), opts(), prop::option::weighted(0.7, 0u8..=8)).prop_map(|(a, opts, prec)| Case::Func { a, opts, prec });
         let poly = (mat, opts(), prop::option::weighted(0.7, 0u8..=8)).prop_map(|(a, opts, prec)| Case::Poly { a, opts, prec });
-        let tree = (1usize..=3, 1usize..=3)
+        let tree = (sized(3, 5), sized(3, 8))
             .prop_flat_map(|(n, p)| (super::c02::tree_params_strategy(2, n, p, 3).prop_flat_map(tree_spec), any::<bool>()))
             .prop_map(|(t, dot)| Case::Tree { t, dot });
         prop_oneof![3 => func, 3 => poly, 2 => tree].boxed()
